@@ -85,6 +85,39 @@ def gen(rng, nmax=4):
     return c
 
 
+def gen_dark(rng):
+    """state_prep_error > 0 with a bad-atom mask (hand-built SequenceData): 2-4 atoms, at least one dark atom with a
+    HIGHER index than a well-prepared neighbour, strong interactions, and a channel that can excite |g> on the dark
+    atom (depolarizing or an eff_noise operator with a g->r component). Reference = exact Lindblad evolution with the
+    dark atoms undriven and non-interacting (= reduced system (x) the dark atoms' own single-atom noisy evolution)."""
+    c = ic.gen_case(rng, nmin=2, nmax=4, max_steps=4, noisy=True)
+    n = c["n"]
+    bad = [False] * n
+    j = rng.randrange(1, n)
+    bad[j] = True
+    for q in range(n):
+        if q != j and q != j - 1 and rng.random() < 0.25:
+            bad[q] = True
+    c["bad"], c["spe"] = bad, rng.choice([0.05, 0.2])
+    c["init"], c["init_mixed"] = None, None          # initial state + state_prep_error is rejected by the back-end
+    U = [[0.0] * n for _ in range(n)]
+    for a in range(n):
+        for b in range(a + 1, n):
+            U[a][b] = U[b][a] = rng.uniform(10.0, 40.0)
+    c["U"], c["masked"], c["slm_end"] = U, [r[:] for r in U], 0.0
+    c["kt"] = rng.choice([1e-8, 1e-10])
+    c["obs0"] = True
+    rate = rng.choice([1.0, 5.0])
+    if rng.random() < 0.5:
+        c["noise"] = [("depolarizing", rate, None)]
+    else:
+        sc = math.sqrt(rate)
+        c["noise"] = [("eff_noise", rate, ([[0.0, 0.0], [sc, 0.0]], [[0.0, 0.0], [0.0, 0.0]]))]   # sqrt(rate)|r><g|
+        if rng.random() < 0.5:
+            c["noise"].append(("relaxation", rng.choice([0.1, 1.0]), None))
+    return c
+
+
 def observables(case):
     from pulser.backend import StateResult, Energy, Occupation
     T = case["times"][-1]
@@ -160,12 +193,90 @@ def oracle(case, out):
     return None, worst
 
 
+KLASS = "krylov-early-accept-weak-drive-dm"
+
+# Witness of finding D20-C16 (known_findings.d/ideal.json; first seen by `VERIF_SEED=11 ./vcheck C16 --tier thorough`):
+# a weakly driven first step, then two laser-off steps in which only U and the noise act.
+WITNESS = dict(n=2, nsteps=3, grid_kind="witness", times=[0.0, 7.0, 8.0, 18.0],
+               omega=[[0.1951620479151358, 0.07727364143556614], [0.0, 0.0], [0.0, 0.0]],
+               delta=[[0.7563658423293106, 0.2651589026593739], [0.0, 0.0], [0.0, 0.0]],
+               phi=[[0.0, 0.0], [0.0, 0.0], [0.0, 0.0]], pmode="zero",
+               U=[[0.0, 2.7373075910697624], [2.7373075910697624, 0.0]],
+               masked=[[0.0, 2.7373075910697624], [2.7373075910697624, 0.0]], slm_end=7.5, init=None, delay=[1, 2],
+               kt=1e-10, obs0=True, noise=[("relaxation", 0.1, None), ("dephasing", 1.0, None)])
+
+
+def classify(case, msg, out=None):
+    """Narrow witness class of an oracle failure — the density-matrix twin of C01's classifier.
+    `krylov-early-accept-weak-drive-dm` iff for some step of the run, started from the *exact* rho, the real
+    `krylov_exp_impl` (Arnoldi, on vec(rho) with the dense dt·L) (a) returns converged, not by happy breakdown,
+    (b) is off by more than the per-step allowance (10·tol + 1e-9)·|rho|_F, and (c) would NOT have accepted had its
+    Expokit estimate used Expokit's norm |A v_{j+1}| instead of n = |A v_j| (estimate recomputed from the very
+    `matrix_exp` output the code accepted on is >= tol), and (d) the observed state errors are explained in size by the
+    per-step errors of that replay. Anything else is unclassified (→ VIOLATION)."""
+    import torch
+    from unittest import mock
+    from scipy.linalg import expm
+    from emu_base.math.krylov_exp import krylov_exp_impl
+    n = case["n"]
+    d = 2 ** n
+    jumps = [ic.embed(L, q, n) for q in range(n) for L in jump_ops(case)]
+    rho = ic.rho0(case).reshape(-1)
+    real_me = torch.linalg.matrix_exp
+    hit, pred, exacts = False, [0.0], [rho]
+    for dt, H in ic.piecewise(case):
+        S = ic.liouvillian(H, jumps)
+        A = torch.tensor(dt * S)
+        seen, exps = [], []
+
+        def op(x, A=A, seen=seen):
+            seen.append(x.clone())
+            return A @ x
+
+        def me(x, exps=exps):
+            r = real_me(x)
+            exps.append(r.clone())
+            return r
+        with mock.patch.object(torch.linalg, "matrix_exp", me):
+            r = krylov_exp_impl(op, torch.tensor(rho).clone(), is_hermitian=False, exp_tolerance=case["kt"],
+                                norm_tolerance=case["kt"])
+        exact = expm(dt * S) @ rho
+        err = float(np.linalg.norm(r.result.numpy() - exact))
+        if r.converged and not r.happy_breakdown and err > (10 * case["kt"] + 1e-9) * float(np.linalg.norm(rho)):
+            j = r.iteration_count - 1
+            w = A @ seen[-1]
+            for u in seen:
+                w = w - torch.vdot(u, w) * u
+            if float(w.norm()) > 0 and exps:
+                avnorm = float((A @ (w / w.norm())).norm())
+                expd = exps[-1]
+                err1, err2 = abs(complex(expd[j + 1, 0])), abs(complex(expd[j + 2, 0])) * avnorm
+                est = err1 if err1 < err2 else err1 * err2 / (err1 - err2)
+                if est >= case["kt"]:
+                    hit = True
+        pred.append(pred[-1] + err)
+        exacts.append(exact)
+        rho = exact
+    if not hit:
+        return None
+    if out is not None and out.get("results") is not None:
+        # the mechanism must also *explain the size* of what was observed: at every reported index the state error is
+        # at most 3x the sum of the per-step errors the real kernel makes from the exact states (+ the allowance)
+        first = 0 if case["obs0"] else 1
+        for pos, k in enumerate(range(first, len(case["times"]))):
+            r = out["results"].state[pos].data.numpy().reshape(-1)
+            if float(np.linalg.norm(r - exacts[k])) > 3.0 * pred[k] + k * (10.0 * case["kt"] + 1e-9) + ROUND:
+                return None
+    return KLASS
+
+
 def check(rep: Report, tier: str, seed: int) -> None:
     rep.rule = ("cases = hand-built noisy SequenceData: 1-4 atoms, 1-5 steps, non-uniform grids, per-atom drives, SLM end "
                 "inside a step, 1-3 channels out of dephasing / relaxation / depolarizing / random complex 2x2 eff_noise "
                 "with rates 0.01..5 per us, optional user-supplied initial density matrix (random pure, or random MIXED with "
                 "purity < 1) run twice with the same config object + bit-for-bit check of the caller's tensor, laser-off "
-                "steps, krylov_tolerance 1e-8..1e-12. "
+                "steps, krylov_tolerance 1e-8..1e-12; plus a stream with state_prep_error > 0 and bad-atom masks (dark atom with a "
+                "higher index than a well-prepared neighbour, U 10-40, depolarizing or g->r eff_noise). "
                 "non-trivial = at least 2 steps")
     rep.assumptions = [
         "positivity of the exact flow (Lindblad's theorem) is not proved: PositivityAssumed; validated by min eigenvalue",
@@ -177,11 +288,14 @@ def check(rep: Report, tier: str, seed: int) -> None:
     rng = seeded(seed * 7919 + 116)
     import torch
     torch.manual_seed(seed)
-    n_cases = 60 if tier == "quick" else 1500
+    n_cases = 52 if tier == "quick" else 1500
     cases, outs, due = [], [], []
     worst = 0.0
-    for i in range(n_cases):
-        case = gen(rng, 4 if i % 4 == 0 else 3)
+    n_dark = 12 if tier == "quick" else 300
+    for i in range(n_cases + n_dark):
+        case = gen(rng, 4 if i % 4 == 0 else 3) if i < n_cases else gen_dark(rng)
+        if case.get("bad"):
+            rep.count("cases_with_badly_prepared_atoms")
         try:
             out = run_case(case)
             if out["status"] == "ok" and has_user_state(case):
@@ -194,7 +308,9 @@ def check(rep: Report, tier: str, seed: int) -> None:
                 rep.count("second_runs_same_config")
                 msg2 = (f"second run failed with {out2['status']}" if out2["status"] != "ok" else oracle(case, out2)[0])
                 if msg2:
-                    rep.fail("second run with the same config object: " + msg2, ic.ser_case(case, second_run=True))
+                    rep.fail("second run with the same config object: " + msg2, ic.ser_case(case, second_run=True),
+                             klass=(classify(case, msg2, out2) if out2["status"] == "ok" and out2["init_unchanged"] is not False
+                                    and out["init_unchanged"] is not False else None))
         except Exception as e:
             rep.fail(f"real SVBackendImpl (noisy) raised {type(e).__name__}: {e}", ic.ser_case(case))
             continue
@@ -211,9 +327,18 @@ def check(rep: Report, tier: str, seed: int) -> None:
             rep.fail(f"real noisy run failed with {out['status']} on a well-formed grid", ic.ser_case(case))
             continue
         msg, w = oracle(case, out)
-        worst = max(worst, w)
         if msg:
-            rep.fail(msg, ic.ser_case(case))
+            k = classify(case, msg, out)
+            rep.hist("oracle_failure_class", k)
+            rep.fail(msg, ic.ser_case(case), klass=k)
+        else:
+            worst = max(worst, w)
+    # replay of the recorded witness of the known finding on the real code (DESIGN §2.4)
+    wout = run_case(dict(WITNESS))
+    wmsg = oracle(WITNESS, wout)[0] if wout["status"] == "ok" else None
+    rep.extra["witness_D20_C16"] = wmsg or "no longer fails (fixed?)"
+    if wmsg:
+        rep.fail(wmsg, ic.ser_case(WITNESS), klass=classify(WITNESS, wmsg, wout))
     ic.compare_schedule(rep, "c16", cases, outs, due)
     rep.extra["oracle_worst_over_allowed"] = round(worst, 4)
     if rep.broken and not rep.failing:
